@@ -172,6 +172,27 @@ func (e *Expression) Evaluate(dc *context.DataContext, Vars map[string]reflect.V
 		//data compare
 		if l, ok1 := TypeMap[tlv.Kind().String()]; ok1 {
 			if r, ok2 := TypeMap[trv.Kind().String()]; ok2 {
+				//integers compare exactly over the whole 64-bit range (float64 only holds 53 bits)
+				if c, isInt := compareIntegers(flv, frv); isInt {
+					switch e.ComparisonOperator {
+					case "==":
+						b = reflect.ValueOf(c == 0)
+					case "!=":
+						b = reflect.ValueOf(c != 0)
+					case ">":
+						b = reflect.ValueOf(c > 0)
+					case "<":
+						b = reflect.ValueOf(c < 0)
+					case ">=":
+						b = reflect.ValueOf(c >= 0)
+					case "<=":
+						b = reflect.ValueOf(c <= 0)
+					default:
+						return reflect.ValueOf(nil), errors.New(fmt.Sprintf("line %d, column %d, code: %s, Can't be recognized ComparisonOperator: %s", e.LineNum, e.Column, e.Code, e.ComparisonOperator))
+					}
+					goto LAST
+				}
+
 				var ll float64
 				switch l {
 				case "int", "int8", "int16", "int32", "int64":
@@ -267,4 +288,59 @@ LAST:
 		}
 	}
 	return reflect.ValueOf(nil), errors.New(fmt.Sprintf("line %d, column %d, code: %s, evaluate Expression err!", e.LineNum, e.Column, e.Code))
+}
+
+// compareIntegers returns -1, 0 or 1 for two values of signed or unsigned integer kind; ok is false
+// if one of them is not an integer
+func compareIntegers(a, b reflect.Value) (int, bool) {
+	var ai, bi int64
+	var au, bu uint64
+	var aUnsigned, bUnsigned bool
+
+	switch a.Kind() {
+	case reflect.Int, reflect.Int8, reflect.Int16, reflect.Int32, reflect.Int64:
+		ai = a.Int()
+	case reflect.Uint, reflect.Uint8, reflect.Uint16, reflect.Uint32, reflect.Uint64:
+		au, aUnsigned = a.Uint(), true
+	default:
+		return 0, false
+	}
+
+	switch b.Kind() {
+	case reflect.Int, reflect.Int8, reflect.Int16, reflect.Int32, reflect.Int64:
+		bi = b.Int()
+	case reflect.Uint, reflect.Uint8, reflect.Uint16, reflect.Uint32, reflect.Uint64:
+		bu, bUnsigned = b.Uint(), true
+	default:
+		return 0, false
+	}
+
+	if !aUnsigned && !bUnsigned {
+		if ai < bi {
+			return -1, true
+		} else if ai > bi {
+			return 1, true
+		}
+		return 0, true
+	}
+
+	//a negative signed value is smaller than every unsigned one
+	if !aUnsigned {
+		if ai < 0 {
+			return -1, true
+		}
+		au = uint64(ai)
+	}
+	if !bUnsigned {
+		if bi < 0 {
+			return 1, true
+		}
+		bu = uint64(bi)
+	}
+	if au < bu {
+		return -1, true
+	} else if au > bu {
+		return 1, true
+	}
+	return 0, true
 }
